@@ -6,6 +6,7 @@ import Driver.UspCmd
 import Driver.PunyCmd
 import Driver.PatCmd
 import Driver.AggCmd
+import AdaVerif.Model.FastScan
 /-
 Model driver: same line protocol as harness/ada_harness.cpp, answered by the Lean Model/Spec.
 -/
@@ -56,6 +57,10 @@ def step (a : List String) : String :=
   | ["agg.edit", st, ed, arg] => cmdAggEdit st ed arg
   | ["agg.shape", st] => cmdAggShape st
   | "url.model" :: rest => cmdUrlModel rest
+  | ["canfast", h] => match Model.FastScan.fastScan (unhexs h) with
+    | some true => "t" | some false => "f" | none => "n"
+  | ["ipv4fast", h] => match Model.FastScan.ipv4Fast (unhexs h) with
+    | some a => toString a | none => "fail"
   | "spec.canon" :: comp :: value :: proto :: hints => cmdSpecCanon comp value proto hints
   | _ => "bad-op"
 
